@@ -183,8 +183,8 @@ class Judge:
 def plan(tier):
     if tier == 'thorough':
         return {'n_free': int(os.environ.get('VERIF_C15_RUNS', 120000)), 'n_fault': int(os.environ.get('VERIF_C15_FAULT_RUNS', 60000)),
-                'n_real': 60}
-    return {'n_free': int(os.environ.get('VERIF_C15_RUNS', 5000)), 'n_fault': int(os.environ.get('VERIF_C15_FAULT_RUNS', 2500)), 'n_real': 8}
+                'n_real': 96}
+    return {'n_free': int(os.environ.get('VERIF_C15_RUNS', 5000)), 'n_fault': int(os.environ.get('VERIF_C15_FAULT_RUNS', 2500)), 'n_real': 24}
 
 
 def scenario(seed, corp, batch, idx):
@@ -199,6 +199,7 @@ def edge_texts():
     out = []
     for t in G.LAST_LINE_CASES + G.FIRST_LINE_CASES:
         out += [t, t + '\n', 'intro\n\n' + t]
+    out += G.context_texts()
     return [t for t in out if CW.in_domain(t)]
 
 
@@ -452,7 +453,8 @@ def real_runs(judge, seed, corp, n):
             env.update(envx)
             env['PYTHONPATH'] = core.REPO
             env['PYTHONDONTWRITEBYTECODE'] = '1'
-            argv = [sys.executable, '-m', 'mistletoe', '-r', CW.dotted(scn['R'])] + scn['names']
+            dashes = ['--'] if any(nm.startswith('-') for nm in scn['names']) else []
+            argv = [sys.executable, '-m', 'mistletoe', '-r', CW.dotted(scn['R'])] + dashes + scn['names']
             p = subprocess.Popen(argv, cwd=d, env=env, stdout=subprocess.PIPE, stderr=subprocess.PIPE)
             procs.append((scn, p))
             if len(procs) >= 16 or i == n - 1:
